@@ -159,7 +159,13 @@ def vectorise(t, lv, n, shp, dim_term):
                     r = acc
         elif x.op in ELEMENTWISE:
             parts = [rec(a) if isinstance(a, Term) else a for a in x.args]
-            r = None if any(p is None for p in parts) else T(x.op, *parts)
+            op2 = x.op
+            # a per-iteration scalar factor / divisor becomes a vector: the scaling is elementwise then
+            if x.op == "sdiv" and len(x.args) == 2 and isinstance(x.args[1], Term) and mentions(x.args[1], lv):
+                op2 = "div"
+            elif x.op == "smul" and len(x.args) == 2 and isinstance(x.args[0], Term) and mentions(x.args[0], lv):
+                op2 = "mul"
+            r = None if any(p is None for p in parts) else T(op2, *parts)
         memo[x] = r
         return r
 
